@@ -8,7 +8,10 @@ from vlib import boot
 from vlib.engine import Outcome
 
 PROPERTY = 'C07'
-RULE = ('(stream) A conforming peer stream (contact header, SESS_INIT with extension items, well-formed transfers with '
+RULE = ('(split) streams holding an unknown message type code, which no reference can frame, are fed to fresh endpoints '
+        'under four cut sets (handshake then all at once, header/handshake/rest, octet by octet, generated cuts): the '
+        'acted-on sequence, the octets written and the closed state must be the same for all four.  '
+        '(stream) A conforming peer stream (contact header, SESS_INIT with extension items, well-formed transfers with '
         '0..30000-octet segments and extension items, KEEPALIVE, MSG_REJECT, XFER_ACK for a queued transfer, optional '
         'SESS_TERM) is rendered by the independent RFC 9174 encoder and fed to one real ContactHandler (active or '
         'passive) through the simulated socket under a generated cut set: every single cut position and one octet at a '
@@ -178,10 +181,23 @@ def stream_cases(draw):
     return case
 
 
+@st.composite
+def split_cases(draw):
+    ''' Streams with an unknown message type code somewhere (what follows it cannot be framed by anybody). '''
+    simple = st.sampled_from([{'t': 'KEEPALIVE'}, {'t': 'MSG_REJECT', 'rej_msg_id': 4, 'reason': 1},
+                              {'t': 'XFER_ACK', 'flags': 0, 'id': 900, 'length': 3},
+                              {'t': 'XFER_SEGMENT', 'flags': 3, 'id': 5, 'dlen': 4, 'dseed': 1, 'ext': []}])
+    unknown = st.integers(8, 255).map(lambda code: {'t': 'UNKNOWN-CODE', 'code': code})
+    before = draw(st.lists(simple, max_size=2))
+    after = draw(st.lists(st.one_of(simple, simple, unknown), min_size=1, max_size=4))
+    return {'kind': 'split', 'active': draw(st.booleans()), 'msgs': before + [draw(unknown)] + after,
+            'cuts': draw(st.lists(st.integers(1, 60), max_size=5))}
+
+
 def strategy(tier):
     from vlib import strat9174 as s9
     codec = st.fixed_dictionaries({'kind': st.just('codec'), 'msg': s9.any_message()})
-    return st.one_of(stream_cases(), stream_cases(), codec)
+    return st.one_of(stream_cases(), stream_cases(), codec, split_cases())
 
 
 def _short_streams(tier):
@@ -248,6 +264,8 @@ def enumerate_cases(tier):
 
 
 def pinned_cases():
+    yield 'unknown-type-then-keepalives', {'kind': 'split', 'active': False, 'cuts': [1],
+                                           'msgs': [{'t': 'UNKNOWN-CODE', 'code': 0x99}, {'t': 'KEEPALIVE'}, {'t': 'KEEPALIVE'}]}
     yield 'keepalive-ends-read', {'kind': 'stream', 'active': False, 'sess_init': None, 'queue_own': False,
                                   'msgs': [{'t': 'KEEPALIVE'}], 'cuts': []}
     yield 'contact-header-and-sess-init-in-one-read', {'kind': 'stream', 'active': True, 'sess_init': None,
@@ -418,9 +436,82 @@ def run_codec(case, out):
                  % (_short(_norm(back)), _short(msg)))
 
 
+def acted_on(data, cuts, active):
+    ''' Feed ``data`` cut at ``cuts`` to a fresh endpoint.  :return: (acted-on sequence, octets written, closed?, escapes) '''
+    from vlib import tcpcl_world as tw
+    world = tw.World(tw.make_config('dtn://real/'), scripted=True, real_is_passive=not active)
+    end = world.real
+    hdl = end.hdl
+    log = []
+    orig = hdl.recv_message
+
+    def recv_message(pkt):
+        try:
+            item = repo_to_ref(pkt)
+        except Exception as err:
+            item = {'t': 'UNREADABLE', 'err': type(err).__name__}
+        if item.get('t') == 'UNKNOWN':
+            item = dict(item, size=len(bytes(pkt)))     # how many octets went with the unknown type code
+        log.append(item)
+        return orig(pkt)
+    hdl.recv_message = recv_message
+    for _ in range(8):
+        if not end.ctx.iterate():
+            break
+    pos = 0
+    for nxt in sorted(set(c for c in cuts if 0 < c < len(data))) + [len(data)]:
+        if end.sock.closed:
+            break
+        world.peer_sock.send(data[pos:nxt])
+        pos = nxt
+        world.tx_pipe.deliver()
+        for _ in range(200):
+            if end.sock.closed or not end.ctx.iterate():
+                break
+    world.settle()
+    return log, bytes(world.real_wire()), end.sock.closed, [(e.exc_type, e.frame) for e in world.escapes()]
+
+
+def run_split_independence(case, out):
+    ''' Metamorphic: the same octet stream under different cut sets.  Used for streams no reference can frame (an
+    unknown message type code followed by more octets): whatever the endpoint makes of them, it must make the same of
+    them however TCP delivered them. '''
+    from vlib import ref9174 as r, strat9174 as s9
+    head = r.encode({'t': 'CH', 'magic': r.MAGIC.hex(), 'version': 4, 'flags': 0}) + r.encode(_default_init())
+    body = b''
+    for msg in case['msgs']:
+        body += bytes([msg['code']]) if msg['t'] == 'UNKNOWN-CODE' else r.encode(s9.expand(msg))
+    data = head + body
+    active = bool(case.get('active'))
+    variants = [[len(head)], [6, len(head)], list(range(1, len(data))), [6, len(head)] + [c + len(head) for c in case.get('cuts', [])]]
+    results = []
+    for cuts in variants:
+        log, wire, closed, escapes = acted_on(data, cuts, active)
+        for exc_type, frame in escapes:
+            out.fail('escape:%s@%s' % (exc_type, frame), 'exception escaped the receive callback under cuts %s' % cuts[:8])
+        results.append((cuts, log, wire, closed))
+    base = results[0]
+    for cuts, log, wire, closed in results[1:]:
+        if log != base[1]:
+            idx = next((i for i in range(min(len(log), len(base[1]))) if log[i] != base[1][i]), min(len(log), len(base[1])))
+            out.fail('split-dependent-framing', 'the same %d-octet stream is acted on differently depending on the cuts: item %d is %s '
+                     'with cuts %s and %s with cuts %s (%d vs %d items)'
+                     % (len(data), idx, _short(log[idx]) if idx < len(log) else None, cuts[:6],
+                        _short(base[1][idx]) if idx < len(base[1]) else None, base[0][:6], len(log), len(base[1])))
+            break
+        if wire != base[2] or closed != base[3]:
+            out.fail('split-dependent-answers', 'the same stream draws different answers depending on the cuts (%d vs %d octets written, '
+                     'closed %s vs %s)' % (len(wire), len(base[2]), closed, base[3]))
+            break
+    out.label('split-independence', 'active' if active else 'passive')
+    out.nontrivial = any(m['t'] == 'UNKNOWN-CODE' for m in case['msgs']) and len(case['msgs']) >= 2
+
+
 def execute(case):
     out = Outcome()
-    if case['kind'] == 'codec':
+    if case['kind'] == 'split':
+        run_split_independence(case, out)
+    elif case['kind'] == 'codec':
         run_codec(case, out)
     else:
         run_stream(case, out)
